@@ -79,14 +79,22 @@ let run_ofso () =
          | [_; _; um; snapmode] ->
              let w = ref (spec_init (n_of_int (int_of_string um))) in
              let outs = ref [] in
+             (* the working directory as OrefaFS keeps it: the path string at the time of the last Chdir *)
+             let cwdstr = ref (str_of_string "/") in
+             let cur_path (w : sworld) =
+               let v = w.sw_sv.sv_view and h = w.sw_fs.f_heap in
+               path_of (S (nat_of_int (List.length h))) h v.v_root w.sw_sv.sv_cwd [] in
              List.iter (fun o ->
                let c = Drv_fs.parse_op (split_ws o) in
+               let moved = not (Drv_fso.cwd_alive !w) || cur_path !w <> !cwdstr in
                let (w', r) = spec_step true !w c in
                let sr = Drv_fso.show_sres r and ss = Drv_fso.snap snapmode w' in
                let (wi, ri) = o_impl_step_proj (oworld_of_sworld !w) c in
                let same = Drv_fso.show_sres ri = sr
                           && snapshot_text wi = Drv_fs.snapshot_text (Drv_fso.world_of w') in
-               outs := (Printf.sprintf "%s%s ~- ~%s ~%s ~%s" sr ss (if same then "T" else "F") (Drv_fso.shapes !w c)
+               (match c, r with CChdir _, SOk -> cwdstr := cur_path w' | _ -> ());
+               outs := (Printf.sprintf "%s%s ~- ~%s ~%s%s ~%s" sr ss (if same then "T" else "F")
+                          (if Drv_fso.uses_cwd c then (if moved then "m" else "c") else "") (Drv_fso.shapes !w c)
                           (if Drv_fso.cwd_alive w' then "A" else "D")) :: !outs;
                w := w') ops;
              print_endline (String.concat " | " (List.rev !outs))
